@@ -228,7 +228,7 @@ Proof.
     as (s' & Hw & Hmeta & Himg & Hfr & Hlen & _); try assumption.
   - unfold s0. cbn [dirs w_dirs]. apply nthN_updN_same. exact Hlt.
   - exists s'. split; [|repeat split; assumption].
-    unfold with_dir_entry_mut, dir_entry, set_dir_entry. sred.
+    unfold with_dir_entry_mut, with_dir_entry_mut_inner, dir_entry, set_dir_entry. sred.
     rewrite Hn. sred. rewrite Hn. fold s0. rewrite Hw. reflexivity.
 Qed.
 
@@ -470,6 +470,9 @@ Proof.
           rewrite bind_get. unfold chain_len. cbn [c_ids]. rewrite (mw_rlen _ _ _ _ _ W).
           destruct (slen s * lenN rids <=? 64 * lenN (minifat s)) eqn:E; [lia | reflexivity]. }
         rewrite (bind_exec _ _ _ _ _ Hns). exact E1. }
+      rewrite (bind_exec _ _ _ _ _ (dir_entry_exec s _ r (mw_root _ _ _ _ _ W) : root_entry s = (s, Ok r))).
+      replace (d_len r <? (lenN (minifat s) + 1) * MINI_SECTOR_LEN) with true
+        by (symmetry; apply N.ltb_lt; rewrite (mw_rlen _ _ _ _ _ W); unfold MINI_SECTOR_LEN; lia).
       rewrite (bind_exec _ _ _ _ _ Happ).
       rewrite (bind_exec _ _ _ _ _ E2). reflexivity. }
     split.
@@ -962,6 +965,7 @@ Proof.
     { pose proof (ChainProofs.slen_pos s). apply N.ltb_ge.
       rewrite MAXREG_val. rewrite CUTOFF_4096 in Hcut'. nia. }
     rewrite E0. sred.
+    rewrite (mask_check_false s new_len) by (apply small_fits_mask; lia). sred.
     assert (E2 : (d_start e =? END_OF_CHAIN) = false) by lia. rewrite E2.
     assert (E3 : (d_len e <? MINI_STREAM_CUTOFF) = true) by lia. rewrite E3.
     assert (E4 : (new_len =? 0) = false) by lia. rewrite E4.
@@ -1268,6 +1272,7 @@ Proof.
   { unfold write_data. sred.
     rewrite (stream_entry_ok s id e Hnth Ht). sred.
     assert (E1 : (d_len e <? off) = false) by lia. rewrite E1.
+    rewrite (both_check_false_small s (N.max (d_len e) (off + lenN buf))) by lia.
     assert (E2 : (d_start e =? END_OF_CHAIN) = false) by lia. rewrite E2.
     assert (E3 : (d_len e <? MINI_STREAM_CUTOFF) = true) by lia. rewrite E3.
     fold ln.
@@ -1361,6 +1366,7 @@ Proof.
     { pose proof (ChainProofs.slen_pos s). apply N.ltb_ge.
       rewrite MAXREG_val. rewrite CUTOFF_4096 in Hcut. nia. }
     rewrite E0. sred.
+    rewrite (mask_check_false s new_len) by (apply small_fits_mask; lia). sred.
     rewrite N.eqb_refl. cbn [N.eqb negb].
     assert (E5 : (new_len <? MINI_STREAM_CUTOFF) = true) by lia. rewrite E5.
     rewrite (mchain_new_eoc s).
@@ -1409,6 +1415,8 @@ Proof.
   split.
   { unfold write_data. sred.
     rewrite (stream_entry_ok s id e Hnth Ht). sred. rewrite Hst, Hlen.
+    change (0 <? 0) with false. sred.
+    rewrite (both_check_false_small s (N.max 0 (0 + lenN buf))) by lia.
     cbn [N.ltb N.compare N.eqb negb]. rewrite N.eqb_refl.
     rewrite N.add_0_l.
     replace (N.max 0 (lenN buf)) with (lenN buf) by lia.
@@ -2670,6 +2678,7 @@ Proof.
     { pose proof (ChainProofs.slen_pos s). apply N.ltb_ge.
       rewrite MAXREG_val. rewrite CUTOFF_4096 in Hcut. nia. }
     rewrite E0. sred.
+    rewrite (mask_check_false s new_len) by (apply small_fits_mask; lia). sred.
     assert (E2 : (d_start e =? END_OF_CHAIN) = false) by lia. rewrite E2.
     assert (E3 : (d_len e <? MINI_STREAM_CUTOFF) = false) by lia. rewrite E3.
     assert (E4 : (new_len =? 0) = false) by lia. rewrite E4.
@@ -3333,13 +3342,14 @@ Proof. intros. apply StoreProofs.takeN_repeatN. assumption. Qed.
 Theorem resize_empty_big : forall s id new_len,
   SWf s -> empty_stream s id ->
   MINI_STREAM_CUTOFF <= new_len -> new_len <= MAX_REGULAR_SECTOR * slen s ->
+  new_len <= stream_len_mask (ver s) ->
   (slen s + new_len - 1) / slen s <= lenN (free s) ->
   exists s',
     resize id new_len s = (s', Ok tt) /\
     big_content s' id (repeatN 0 new_len) /\
     SWf s' /\ others_kept s s' id /\ nsect s' = nsect s.
 Proof.
-  intros s id new_len (r & rids & mfids & dids & SW0) (e & Hn & Ht & Hst & Hlen) Hcut Hmax Hroom.
+  intros s id new_len (r & rids & mfids & dids & SW0) (e & Hn & Ht & Hst & Hlen) Hcut Hmax Hmask Hroom.
   pose proof (slen_pos s) as Hsp.
   assert (SW : SWfX_at s r rids mfids dids (Xid id)) by (eapply SWfX_weaken; [exact SW0 | intros j []]).
   set (num := (slen s + new_len - 1) / slen s) in *.
@@ -3358,7 +3368,8 @@ Proof.
   { unfold resize. sred.
     rewrite (stream_entry_ok s id e Hn Ht). sred. rewrite Hst, Hlen.
     assert (E0 : (MAX_REGULAR_SECTOR * slen s <? new_len) = false) by (apply N.ltb_ge; exact Hmax).
-    rewrite E0. sred. rewrite N.eqb_refl. cbn [N.eqb negb].
+    rewrite E0. sred. rewrite (mask_check_false s new_len Hmask). sred.
+    rewrite N.eqb_refl. cbn [N.eqb negb].
     assert (E5 : (new_len <? MINI_STREAM_CUTOFF) = false) by lia. rewrite E5.
     rewrite (chain_new_exec s END_OF_CHAIN IZero [] (chain_of_path _ _ _ (WalkProofs.path_nil _))).
     rewrite (StoreProofs.chain_set_len_grow s (mkChain IZero [] 0) new_len).
@@ -3378,13 +3389,14 @@ Qed.
 Theorem write_data_empty_big : forall s id buf,
   SWf s -> empty_stream s id ->
   MINI_STREAM_CUTOFF <= lenN buf ->
+  lenN buf <= N.min (MAX_REGULAR_SECTOR * slen s) (stream_len_mask (ver s)) ->
   (lenN buf + slen s - 1) / slen s <= lenN (free s) ->
   exists s',
     write_data id 0 buf s = (s', Ok tt) /\
     big_content s' id buf /\
     SWf s' /\ others_kept s s' id /\ nsect s' = nsect s.
 Proof.
-  intros s id buf (r & rids & mfids & dids & SW0) (e & Hn & Ht & Hst & Hlen) Hcut Hroom.
+  intros s id buf (r & rids & mfids & dids & SW0) (e & Hn & Ht & Hst & Hlen) Hcut Hbounds Hroom.
   pose proof (slen_pos s) as Hsp.
   assert (SW : SWfX_at s r rids mfids dids (Xid id)) by (eapply SWfX_weaken; [exact SW0 | intros j []]).
   assert (Hp0 : path (fat s) (hd END_OF_CHAIN []) []) by constructor.
@@ -3400,6 +3412,9 @@ Proof.
   exists s'. split.
   { unfold write_data. sred.
     rewrite (stream_entry_ok s id e Hn Ht). sred. rewrite Hst, Hlen.
+    change (0 <? 0) with false. sred.
+    replace (N.min (MAX_REGULAR_SECTOR * slen s) (stream_len_mask (ver s)) <? N.max 0 (0 + lenN buf))
+      with false by (symmetry; apply N.ltb_ge; lia).
     cbn [N.ltb N.compare N.eqb negb]. rewrite N.eqb_refl. rewrite N.add_0_l.
     replace (N.max 0 (lenN buf)) with (lenN buf) by lia.
     assert (E4 : (lenN buf <? MINI_STREAM_CUTOFF) = false) by lia. rewrite E4.
@@ -3765,13 +3780,14 @@ Proof. intros a b c Hc H. apply N.div_le_mono; lia. Qed.
 Theorem write_data_small_to_big : forall s id V off buf,
   SWf s -> small_content s id V -> off <= lenN V ->
   MINI_STREAM_CUTOFF <= off + lenN buf ->
+  off + lenN buf <= N.min (MAX_REGULAR_SECTOR * slen s) (stream_len_mask (ver s)) ->
   (off + lenN buf + slen s - 1) / slen s <= lenN (free s) ->
   exists s',
     write_data id off buf s = (s', Ok tt) /\
     big_content s' id (spliceN V off buf) /\
     SWf s' /\ others_kept s s' id /\ nsect s' = nsect s.
 Proof.
-  intros s id V off buf (r & rids & mfids & dids & SW0) Hsc Hoff Hcut2 Hroom.
+  intros s id V off buf (r & rids & mfids & dids & SW0) Hsc Hoff Hcut2 Hbounds Hroom.
   pose proof (slen_pos s) as Hsp.
   pose proof (sw_m _ _ _ _ _ _ SW0) as W.
   destruct (small_content_at _ _ _ _ _ _ _ W Hsc) as (e & mids & Hsm).
@@ -3814,9 +3830,11 @@ Proof.
   { unfold write_data. sred.
     rewrite (stream_entry_ok s id e Hnth Ht). sred.
     assert (E1 : (d_len e <? off) = false) by lia. rewrite E1.
+    fold ln.
+    replace (N.min (MAX_REGULAR_SECTOR * slen s) (stream_len_mask (ver s)) <? ln)
+      with false by (symmetry; apply N.ltb_ge; rewrite Eln; exact Hbounds).
     assert (E2 : (d_start e =? END_OF_CHAIN) = false) by lia. rewrite E2.
     assert (E3 : (d_len e <? MINI_STREAM_CUTOFF) = true) by lia. rewrite E3.
-    fold ln.
     assert (E4 : (ln <? MINI_STREAM_CUTOFF) = false) by lia. rewrite E4.
     assert (E5 : (MINI_STREAM_CUTOFF <=? off) = false) by lia. rewrite E5.
     rewrite (mchain_new_ok s _ mids Hch).
@@ -3872,13 +3890,14 @@ Qed.
 Theorem resize_small_to_big : forall s id V new_len,
   SWf s -> small_content s id V ->
   MINI_STREAM_CUTOFF <= new_len -> new_len <= MAX_REGULAR_SECTOR * slen s ->
+  new_len <= stream_len_mask (ver s) ->
   (slen s + new_len - 1) / slen s <= lenN (free s) ->
   exists s',
     resize id new_len s = (s', Ok tt) /\
     big_content s' id (V ++ repeatN 0 (new_len - lenN V)) /\
     SWf s' /\ others_kept s s' id /\ nsect s' = nsect s.
 Proof.
-  intros s id V new_len (r & rids & mfids & dids & SW0) Hsc Hcut2 Hmax Hroom.
+  intros s id V new_len (r & rids & mfids & dids & SW0) Hsc Hcut2 Hmax Hmask Hroom.
   pose proof (slen_pos s) as Hsp.
   pose proof (sw_m _ _ _ _ _ _ SW0) as W.
   destruct (small_content_at _ _ _ _ _ _ _ W Hsc) as (e & mids & Hsm).
@@ -3921,7 +3940,7 @@ Proof.
   { unfold resize. sred.
     rewrite (stream_entry_ok s id e Hnth Ht). sred.
     assert (E0 : (MAX_REGULAR_SECTOR * slen s <? new_len) = false) by (apply N.ltb_ge; exact Hmax).
-    rewrite E0. sred.
+    rewrite E0. sred. rewrite (mask_check_false s new_len Hmask). sred.
     assert (E2 : (d_start e =? END_OF_CHAIN) = false) by lia. rewrite E2.
     assert (E3 : (d_len e <? MINI_STREAM_CUTOFF) = true) by lia. rewrite E3.
     assert (E4 : (new_len =? 0) = false) by lia. rewrite E4.
@@ -3974,15 +3993,17 @@ Theorem write_data_contract_alloc : forall s id V k off buf,
      mini_room s (msectors (off + lenN buf) - k)) ->
   (MINI_STREAM_CUTOFF <= lenN (spliceN V off buf) ->
      (off + lenN buf + slen s - 1) / slen s <= lenN (free s)) ->
+  (MINI_STREAM_CUTOFF <= lenN (spliceN V off buf) ->
+     off + lenN buf <= N.min (MAX_REGULAR_SECTOR * slen s) (stream_len_mask (ver s))) ->
   exists s',
     write_data id off buf s = (s', Ok tt) /\
     content s' id (spliceN V off buf) /\
     SWf s' /\ others_kept s s' id.
 Proof.
-  intros s id V k off buf SW Hc HV Hk Hoff Hb Hsmall Hbig.
+  intros s id V k off buf SW Hc HV Hk Hoff Hb Hsmall Hbig Hbounds.
   destruct (N.lt_ge_cases (lenN (spliceN V off buf)) MINI_STREAM_CUTOFF) as [Hlt|Hge].
   - exact (write_data_contract_small_alloc s id V k off buf Hc Hk Hoff Hb Hlt (Hsmall Hlt)).
-  - specialize (Hbig Hge). rewrite lenN_spliceN in Hge.
+  - specialize (Hbig Hge). specialize (Hbounds Hge). rewrite lenN_spliceN in Hge.
     assert (Hge' : MINI_STREAM_CUTOFF <= off + lenN buf) by blia.
     destruct Hc as [[-> He]|[H|H]].
     + cbn [lenN] in Hoff. assert (off = 0) by lia. subst off.
@@ -3990,9 +4011,9 @@ Proof.
       { unfold spliceN. cbn [takeN dropN lenN app]. rewrite N.sub_diag.
         change (repeatN 0 0) with (@nil byte). cbn [app]. apply app_nil_r. }
       rewrite Es. rewrite N.add_0_l in *.
-      destruct (write_data_empty_big s id buf SW He Hge' Hbig) as (s' & Hrun & Hbc & SW' & Ho & _).
+      destruct (write_data_empty_big s id buf SW He Hge' Hbounds Hbig) as (s' & Hrun & Hbc & SW' & Ho & _).
       exists s'. split; [exact Hrun|]. split; [right; right; exact Hbc|]. split; assumption.
-    + destruct (write_data_small_to_big s id V off buf SW H Hoff Hge' Hbig)
+    + destruct (write_data_small_to_big s id V off buf SW H Hoff Hge' Hbounds Hbig)
         as (s' & Hrun & Hbc & SW' & Ho & _).
       exists s'. split; [exact Hrun|]. split; [right; right; exact Hbc|]. split; assumption.
     + pose proof (big_content_len_ge _ _ _ H). lia.
@@ -4002,6 +4023,7 @@ Qed.
    of mini sectors a small (or empty) stream holds *)
 Theorem resize_contract_alloc : forall s id V k n,
   SWf s -> content s id V -> 0 < n -> n <= MAX_REGULAR_SECTOR * slen s ->
+  n <= stream_len_mask (ver s) ->
   (lenN V < MINI_STREAM_CUTOFF -> mini_sectors s id k) ->
   (lenN V < MINI_STREAM_CUTOFF -> n < MINI_STREAM_CUTOFF ->
      k <= msectors n /\ mini_room s (msectors n - k)) ->
@@ -4014,17 +4036,17 @@ Theorem resize_contract_alloc : forall s id V k n,
     content s' id (takeN n V ++ repeatN 0 (n - lenN V)) /\
     SWf s' /\ others_kept s s' id.
 Proof.
-  intros s id V k n SW Hc Hn Hmax Hk Hss Hbs Hsb Hbb.
+  intros s id V k n SW Hc Hn Hmax Hmask Hk Hss Hbs Hsb Hbb.
   destruct (N.lt_ge_cases (lenN V) MINI_STREAM_CUTOFF) as [HV|HV].
   - destruct (N.lt_ge_cases n MINI_STREAM_CUTOFF) as [Hlt|Hge].
     + destruct (Hss HV Hlt) as [Hle Hroom].
       exact (resize_contract_small_alloc s id V k n Hc (Hk HV) HV Hn Hlt Hle Hroom).
     + specialize (Hsb HV Hge).
       destruct Hc as [[-> He]|[H|H]].
-      * destruct (resize_empty_big s id n SW He Hge Hmax Hsb) as (s' & Hrun & Hbc & SW' & Ho & _).
+      * destruct (resize_empty_big s id n SW He Hge Hmax Hmask Hsb) as (s' & Hrun & Hbc & SW' & Ho & _).
         exists s'. split; [exact Hrun|]. cbn [takeN lenN app]. rewrite N.sub_0_r.
         split; [right; right; exact Hbc|]. split; assumption.
-      * destruct (resize_small_to_big s id V n SW H Hge Hmax Hsb) as (s' & Hrun & Hbc & SW' & Ho & _).
+      * destruct (resize_small_to_big s id V n SW H Hge Hmax Hmask Hsb) as (s' & Hrun & Hbc & SW' & Ho & _).
         exists s'. split; [exact Hrun|]. rewrite takeN_all by lia.
         split; [right; right; exact Hbc|]. split; assumption.
       * pose proof (big_content_len_ge _ _ _ H). lia.
@@ -4264,6 +4286,9 @@ Proof.
         destruct (slen s * lenN rids <=? 64 * lenN (minifat s)) eqn:E; [|lia].
         rewrite (bind_exec _ _ _ _ _ (bind_exec _ _ _ _ _ E2')). reflexivity. }
       rewrite (bind_exec _ _ _ _ _ Hns). exact E3. }
+    rewrite (bind_exec _ _ _ _ _ (dir_entry_exec s _ r (mw_root _ _ _ _ _ W) : root_entry s = (s, Ok r))).
+    replace (d_len r <? (lenN (minifat s) + 1) * MINI_SECTOR_LEN) with true
+      by (symmetry; apply N.ltb_lt; rewrite (mw_rlen _ _ _ _ _ W); unfold MINI_SECTOR_LEN; lia).
     rewrite (bind_exec _ _ _ _ _ Happ).
     rewrite (bind_exec _ _ _ _ _ E4). reflexivity. }
   split; [exact Hmf4|].
@@ -4634,7 +4659,7 @@ Module Examples2.
       big_content s' 3 (c100 ++ repeatN 0 4400) /\ SWf s' /\ nsect s' = 14 /\
       small_content s' 1 b100 /\ lenN (minifat s') = 2 /\ lenN (free s') = 1.
   Proof.
-    destruct (resize_small_to_big m1 3 c100 4500 m1_wf m1_c ltac:(vmc) ltac:(vmc) ltac:(vmc))
+    destruct (resize_small_to_big m1 3 c100 4500 m1_wf m1_c ltac:(vmc) ltac:(vmc) ltac:(vmc) ltac:(vmc))
       as (s' & Hrun & Hbc & Hwf' & Ho & Hn).
     replace (4500 - lenN c100) with 4400 in Hbc by vmc.
     assert (Ha : small_content m1 1 b100)
@@ -4653,7 +4678,7 @@ Module Examples2.
       big_content s' 3 (takeN 90 c100 ++ takeN 4100 b5000) /\ SWf s' /\ nsect s' = 14.
   Proof.
     destruct (write_data_small_to_big m1 3 c100 90 (takeN 4100 b5000) m1_wf m1_c
-                ltac:(vmc) ltac:(vmc) ltac:(vmc))
+                ltac:(vmc) ltac:(vmc) ltac:(vmc) ltac:(vmc))
       as (s' & Hrun & Hbc & Hwf' & _ & Hn).
     replace (spliceN c100 90 (takeN 4100 b5000)) with (takeN 90 c100 ++ takeN 4100 b5000) in Hbc by vmc.
     exists s'. split; [exact Hrun|]. split; [exact Hbc|]. split; [exact Hwf'|].
@@ -4668,7 +4693,7 @@ Module Examples2.
       small_content s' 3 c100 /\
       read_data 2 4000 200 s' = (s', Ok (dropN 4000 b4200)).
   Proof.
-    destruct (write_data_empty_big m1 2 b4200 m1_wf m1_b ltac:(vmc) ltac:(vmc))
+    destruct (write_data_empty_big m1 2 b4200 m1_wf m1_b ltac:(vmc) ltac:(vmc) ltac:(vmc))
       as (s' & Hrun & Hbc & Hwf' & Ho & Hn).
     exists s'. split; [exact Hrun|]. split; [exact Hbc|]. split; [exact Hwf'|].
     split; [rewrite Hn; vm_compute; reflexivity|].
@@ -4682,7 +4707,7 @@ Module Examples2.
       resize 2 4096 m1 = (s', Ok tt) /\ big_content s' 2 (repeatN 0 4096) /\ SWf s' /\
       small_content s' 3 c100.
   Proof.
-    destruct (resize_empty_big m1 2 4096 m1_wf m1_b ltac:(vmc) ltac:(vmc) ltac:(vmc))
+    destruct (resize_empty_big m1 2 4096 m1_wf m1_b ltac:(vmc) ltac:(vmc) ltac:(vmc) ltac:(vmc))
       as (s' & Hrun & Hbc & Hwf' & Ho & _).
     exists s'. split; [exact Hrun|]. split; [exact Hbc|]. split; [exact Hwf'|].
     apply (proj1 Ho); [discriminate | exact m1_c].
